@@ -115,7 +115,9 @@ theorem addLoop_cons (c : Byte) (cs : List Byte) (s : St) :
            (addLoop cs (putItem (guard2 c (guardFull s N).1).1 c)).2.2)
         | g => ((guard2 c (guardFull s N).1).1, (guardFull s N).2.1 ++ (guard2 c (guardFull s N).1).2.1, g)
       | g => ((guardFull s N).1, (guardFull s N).2.1, g) := by
-  rw [addLoop]; rfl
+  rw [addLoop]
+  simp only [thrFull_eq, thrLF_eq]
+  rfl
 
 theorem guard2_spec {s : St} {j : J} {c : Byte} {cs : List Byte} (h : Inv s) (hg : s.gone = false)
     (hr : RelF s (c :: cs) j) (hlen : s.len ≠ N) :
